@@ -172,7 +172,8 @@ func parseRequestLine(line string) (*RequestLine, error) {
 
 func parseStatusLine(line string) (*StatusLine, error) {
 	fields := strings.Fields(line)
-	if len(fields) >= 3 {
+	// the reason phrase may be empty
+	if len(fields) >= 2 {
 		statusCode, err := strconv.Atoi(fields[1])
 		if err != nil {
 			return nil, err
